@@ -432,7 +432,7 @@ def oracle(case, r, res, counts):
     dom = oracle_domain(case, loaded_cols)
     counts["domain:" + (dom or "in")] = counts.get("domain:" + (dom or "in"), 0) + 1
     if case.get("mode") == "file":
-        want = [[NA if x == "" else x for x in row] for row in case["rows"]]
+        want = [[NA if x in PANDAS_NA else x for x in row] for row in case["rows"]]
         if loaded_rows != want or loaded_cols != case["columns"]:
             res.report("file-load", pub, f"loaded={loaded_rows} want={want}")
     elif (loaded_rows, loaded_cols) != (case["rows"], case["columns"]):
@@ -485,7 +485,21 @@ def public_case(case):
 # ------------------------------------------------------------------ generators
 
 TAGS = ["Red", "Blue", "Green", "Square", "Label/x", "Item/Object", "Agent-action", "Sensory-event"]
-VALUE_TEMPLATES = ["Label/#", "Duration/# s", "(Label/#, Red)", "Age/#, Blue", "(Label/#, ID/#)"]
+VALUE_TEMPLATES = ["Label/#", "Duration/# s", "(Label/#, Red)", "Age/#, Blue", "(Label/#, ID/#)", "#", "Pathname/#"]
+# input DIMENSIONS for cell / annotation text (not witnesses):
+# characters that are special to re / format machinery (replacement templates, patterns, %-format, str.format) ...
+SPECIAL_TEXT = ["images\\face01.png", "set\\no_go.png", "a\\1b", "\\g<0>", "x\\\\y", "\\", "\\d+", "$1", "$&", "%s", "100%",
+                "%(a)s", "a.b*c", "[x]", "^a$", "a|b", "q?", "a+b", "\\t", "\\n", "\\u0041", "&amp;", "a'b", "a;b", "~x", "@x", "<x>"]
+# ... and very short texts / near-misses of the missing-value spelling n/a
+NEAR_NA = ["a", "n", "/", "n/", "/a", "N/A", "na", " n/a", "n/a ", "NA", "nan", "n/a/", "n/an/a", "an", "N", "A", "n\\a", "0", "-"]
+# what pandas.read_csv turns into a missing value by default (then fillna -> "n/a"); trusted pandas behaviour
+PANDAS_NA = {"", "#N/A", "#N/A N/A", "#NA", "-1.#IND", "-1.#QNAN", "-NaN", "-nan", "1.#IND", "1.#QNAN", "<NA>", "N/A", "NA",
+             "NULL", "NaN", "None", "n/a", "nan", "null"}
+SPECIAL_TAGS = ["Label/a\\b", "ID/$1", "Label/100%", "Label/%s", "Label/x\\1", "Label/n", "a", "n", "/", "Label/\\g<0>"]
+
+
+def odd_cell(rng):
+    return rng.choice(SPECIAL_TEXT) if rng.random() < 0.5 else rng.choice(NEAR_NA)
 NAMES = ["cat", "val", "resp", "a", "B", "z_1", "x-y", "trial_type", "c2", "Zed"]
 
 
@@ -501,7 +515,7 @@ def gen_tree_text(rng, leaves_extra, depth=2):
             elif extra and rng.random() < 0.6:
                 items.append(extra.pop())
             else:
-                items.append(rng.choice(TAGS))
+                items.append(rng.choice(SPECIAL_TAGS) if rng.random() < 0.12 else rng.choice(TAGS))
         return rng.choice([", ", ", ", ",", " , "]).join(items)
     t = g(depth)
     while extra:
@@ -530,7 +544,8 @@ def gen_valid(rng, nmax_rows=4, digits=False):
     for nm in names:
         extra = ["{" + x + "}" for x in refd] if nm == host else []
         if kinds[nm] == "categorical":
-            keys = rng.sample(["go", "stop", "left", "right", "1", "2"], rng.randint(1, 3))
+            keys = rng.sample(["go", "stop", "left", "right", "1", "2"] +
+                              (["a", "n", "/a", "N/A", "x\\y", "%s"] if rng.random() < 0.2 else []), rng.randint(1, 3))
             d = {}
             for j, k in enumerate(keys):
                 d[k] = gen_tree_text(rng, extra if (j == 0 or rng.random() < 0.5) else [], 2)
@@ -559,11 +574,12 @@ def gen_valid(rng, nmax_rows=4, digits=False):
         row = []
         for c in cols:
             if c == "HED":
-                row.append(rng.choice(["Red", "(Blue, Green)", NA, "", "Square, (Item/Object, Red)"]))
+                row.append(rng.choice(["Red", "(Blue, Green)", NA, "", "Square, (Item/Object, Red)"])
+                           if rng.random() < 0.75 else rng.choice(SPECIAL_TAGS + NEAR_NA[:8]))
             elif c in sc and kinds[c] == "categorical":
-                row.append(rng.choice(list(sc[c]["HED"]) * 2 + [NA, "", "zzz"]))
+                row.append(rng.choice(list(sc[c]["HED"]) * 2 + [NA, "", "zzz"]) if rng.random() < 0.85 else odd_cell(rng))
             elif c in sc and kinds[c] == "value":
-                row.append(rng.choice(["3", "abc", "1.5", NA, NA, ""]))
+                row.append(rng.choice(["3", "abc", "1.5", NA, NA, ""]) if rng.random() < 0.6 else odd_cell(rng))
             else:
                 row.append(rng.choice(["1.0", "x", NA]))
         rows.append(row)
@@ -583,7 +599,7 @@ def gen_systematic():
                "(Square, ({0}))", "(({0}), Square), Green", "Square, ({0}), Green", "(Square, {0}, Green)"]
     shapes2 = ["{0}, {1}", "({0}, {1})", "{0}, Square, {1}", "({0}), ({1})", "({0}, Square), {1}", "(Square, ({0}, {1}))",
                "Square, ({0}, ({1}))", "({0}, ({1}, Square))"]
-    cells = {"cat": ["go", NA, "", "zzz"], "val": ["7", NA, ""], "HED": ["Red, (Blue)", NA, ""]}
+    cells = {"cat": ["go", NA, "", "zzz"], "val": ["7", NA, "", "a", "p\\1q"], "HED": ["Red, (Blue)", NA, "", "n"]}
     out = []
     for host in ("cat", "val", "host"):
         others = [c for c in ("cat", "val", "HED") if c != host]
@@ -724,8 +740,8 @@ def gen_history(rng):
         sidecars.append(None)
     cols = list(names) + (["HED"] if has_hed else []) + (["onset"] if rng.random() < 0.3 else [])
     rng.shuffle(cols)
-    pool = ["go", "stop", "left", NA, "", "zzz", "3", "abc"]
-    hedpool = ["Red", "(Blue, Green)", NA, ""]
+    pool = ["go", "stop", "left", NA, "", "zzz", "3", "abc", "a", "n/", "N/A", "x\\1y", "\\g<0>", "100%"]
+    hedpool = ["Red", "(Blue, Green)", NA, "", "n", "Label/a\\b"]
     rows = [[rng.choice(hedpool if c == "HED" else pool) for c in cols] for _ in range(rng.randint(1, 3))]
     ops = [["assemble"]]
     for _ in range(rng.randint(2, 6)):
@@ -956,6 +972,9 @@ def regex_exhaustive(tier, exe, res, pool, proof_ok):
             plan = [(1, "r", NA, 6), (1, "1", NA, 5), (1, "12", NA, 4), (1, "0", NA, 4), (1, "r", "", 5), (1, "r", "(b), c", 4)]
         else:
             plan = [(1, "r", NA, 8), (1, "1", NA, 7), (1, "12", NA, 6), (1, "0", NA, 6), (1, "r", "", 7), (1, "r", "(b), c", 6)]
+        # replacement-text dimension: characters special to re/format machinery and near-misses of n/a
+        plan += [(1, "r", nv, 3 if tier == "quick" else 5) for nv in SPECIAL_TEXT + NEAR_NA]
+        plan += [(1, "x-y", nv, 3) for nv in ("\\1", "n", NA)]
     elif tier == "quick":
         plan = [(0, "r", NA, 6), (0, "1", NA, 5), (0, "12", NA, 5), (0, "r", "", 5), (0, "r", "(b), c", 4), (1, "r", NA, 5),
                 (1, "r", "", 4), (1, "7", NA, 4)]
